@@ -169,10 +169,10 @@ def _short(x):
 
 def normalise(events, src):
     """Hook events (all-string fields) -> uniformly typed records for spec/TraceCluster.tla."""
-    out = [{"ev": "reset", "seq": 0, "id": "", "a": 0, "b": 0, "f": False, "src": src}]
+    out = [{"ev": "reset", "seq": 0, "id": "", "a": 0, "b": 0, "c": 0, "d": 0, "f": False, "src": src}]
     for e in events:
         ev = e.get("ev")
-        a = b = 0
+        a = b = c = dd = 0
         f = False
 
         def g(k):
@@ -182,6 +182,9 @@ def normalise(events, src):
                 return -1
         if ev == "ready":
             a, b, f = g("entries"), g("committed"), e.get("snap") == "true"
+            c, dd = max(0, g("term")), max(0, g("vote"))          # 0 when the Ready carries no hard state (or an older hook)
+        elif ev == "recovered":
+            a, b, c, dd = g("commit"), g("entries"), max(0, g("term")), max(0, g("vote"))
         elif ev == "walsave":
             a, b = g("entries"), g("last")
         elif ev == "append":
@@ -200,7 +203,7 @@ def normalise(events, src):
             seq = int(e.get("seq"))
         except Exception:
             seq = -1
-        out.append({"ev": str(ev), "seq": seq, "id": str(e.get("id", "")), "a": a, "b": b, "f": f, "src": src})
+        out.append({"ev": str(ev), "seq": seq, "id": str(e.get("id", "")), "a": a, "b": b, "c": c, "d": dd, "f": f, "src": src})
     return out
 
 
